@@ -5,7 +5,7 @@ from .common import finish, pmap, load_known, STUBS_ASM
 from spec import isa
 
 W_QUICK = dict(reg=12, small=12, imm=40)
-W_THOR = dict(reg=20, small=20, imm=64)
+W_THOR = dict(reg=20, small=20, imm=64, second_solver=True)
 
 
 def _w(tier):
